@@ -218,7 +218,21 @@ def check_minres(idx: ProgramIndex, rep: Report):
                         return defs[0]
                 return t_ast
 
-            good = [t for t, pol in ctl if "shifts" in reads(meaning(t.ast)) and re.search(r"numel|size|shape|len|dim", norm(meaning(t.ast)))]
+            def through_counts(t_ast: ast.AST) -> Tuple[Set[str], str]:
+                """names and text of the test, looking through singly-assigned locals (num_shifts = shifts.numel())."""
+                e = meaning(t_ast)
+                names, text = set(reads(e)), norm(e)
+                for _ in range(3):
+                    for nm in list(names):
+                        defs = [x.value for x in walk_body(fn) if isinstance(x, ast.Assign) and len(x.targets) == 1
+                                and isinstance(x.targets[0], ast.Name) and x.targets[0].id == nm]
+                        if len(defs) == 1 and nm not in fn.params():
+                            names |= reads(defs[0])
+                            text += " " + norm(defs[0])
+                return names, text
+
+            good = [t for t, pol in ctl if "shifts" in through_counts(t.ast)[0]
+                    and re.search(r"numel|size|shape|len|dim", through_counts(t.ast)[1])]
             if good:
                 rep.ok("C11.M3", {"squeeze": short(c, 50), "controlled_by": good[0].label[:60]})
             else:
@@ -257,6 +271,15 @@ def check_minres(idx: ProgramIndex, rep: Report):
                                       "`shifts` is dereferenced on a path that has not passed the None default", fn.loc(bad[0][1])))
         else:
             rd = reads(nd.ast.value)
+            if not {"rhs.dtype", "rhs.device"} <= rd:
+                # the default may be a python number that a later, unconditional conversion turns into a tensor of rhs's
+                # dtype / device before anything dereferences it
+                for n2 in cfg.stmt_nodes():
+                    if n2.kind == "stmt" and isinstance(n2.ast, ast.Assign) and n2.id != nd.id and any(
+                            isinstance(t, ast.Name) and t.id == "shifts" for t in n2.ast.targets) \
+                            and {"rhs.dtype", "rhs.device"} <= reads(n2.ast.value) and all(cfg.dominates(n2.id, n_.id) for n_, _x in derefs):
+                        rd = rd | reads(n2.ast.value)
+                        break
             if {"rhs.dtype", "rhs.device"} <= rd:
                 rep.ok("C11.M3", {"default_shifts": short(nd.ast, 70), "dereferences_after_default": len(derefs)})
             else:
@@ -469,6 +492,13 @@ def check_ciq(idx: ProgramIndex, rep: Report):
         raise AnalysisError(f"{CIQ}.contour_integral_quad not found")
     fn = m.functions["contour_integral_quad"]
     F = fname(fn)
+    try:  # same-module helpers (spectrum estimate, node / weight computation, batch matching) are analysed as part of the body
+        from ..inline import inline_helpers
+
+        fn, _inl = inline_helpers(idx, fn)
+        rep.analysed["ciq_inlined_helpers"] = _inl
+    except Exception:
+        pass
     rets = [n for n in walk_body(fn) if isinstance(n, ast.Return) and isinstance(n.value, ast.Tuple)]
     if len(rets) != 1:
         raise AnalysisError("contour_integral_quad: expected one tuple return")
